@@ -14,6 +14,11 @@ def run(ctx):
     # SkipListWithCmp under rotating total orders (same graph)
     vlib.seq_component(ctx, "SkipList-cmp", "SkipList", "SkipListImpl", None, "OrderedMapTrace", tcfg, "skiplist", ["listz"],
                        rand_n=0, env={"VERIF_FLAVOUR": "cmp", "VERIF_NK": nk}, emit_from=init_graph, **common)
+    # the tallest towers the level draw can produce (height 32 of 32): both list types
+    for fl in ("skip", "cmp"):
+        vlib.seq_component(ctx, "SkipList-%s-tall" % fl, "SkipList", "SkipListImpl", "MC_tall_init.cfg" if fl == "skip" else None, "OrderedMapTrace", "Trace_nk2.cfg",
+                           "skiplist", ["listz"], rand_n=0, env={"VERIF_FLAVOUR": fl, "VERIF_NK": "2"},
+                           emit_from=None if fl == "skip" else ctx.last_emit, walk_mode="cover", trace_every=20)
     # zero-value SkipList (before and after Clear): the list draws its own heights, observations only
     vlib.seq_component(ctx, "SkipList-skipzero", "SkipList", "SkipListImpl", "MC_%s.cfg" % q, "OrderedMapTrace", tcfg, "skiplist", ["listz"],
                        rand_n=0, env={"VERIF_FLAVOUR": "skip", "VERIF_NK": nk, "VERIF_FREE": "1"}, **common)
